@@ -2097,10 +2097,10 @@ class Cache:
         """
         select = (
             'SELECT rowid, expire_time, filename FROM Cache'
-            ' WHERE ? < expire_time AND expire_time < ?'
+            ' WHERE ? <= expire_time AND expire_time < ?'
             ' ORDER BY expire_time LIMIT ?'
         )
-        args = [0, now or time.time(), 100]
+        args = [float('-inf'), now or time.time(), 100]
         return self._select_delete(select, args, row_index=1, retry=retry)
 
     def cull(self, retry=False):
